@@ -13,6 +13,7 @@ open PlzVerif PlzVerif.Label PlzVerif.Visibility PlzVerif.Proto
 
 def lf : Label.Facts := generatedFacts
 def vf : VFacts := generatedVFacts
+def df : DFacts := generatedDFacts
 
 def unhex (s : String) : Option Str := (bytesOfHex s).map fun b => b.map fun x => Char.ofNat x.toNat
 
@@ -35,6 +36,24 @@ def parseVT (s : String) : Option VTarget :=
     | _ => none
   | _ => none
 
+def hexS (s : Str) : String := if s.isEmpty then "-" else hexOfBytes (s.map fun c => UInt8.ofNat c.toNat)
+def showLabel (l : Label) : String := hexS l.pkg ++ ":" ++ hexS l.name ++ ":" ++ hexS l.sub
+
+/-- visibility argument code: `_` omitted, `N` None, `E` [], `P` ["PUBLIC"], `L<hex>` ["//pkg/..."], `A<hex>` ["//pkg:all"];
+    result: `some none` = not set, `some (some l)` = explicit list -/
+def visArg (code : String) : Option (Option (List Label)) :=
+  if code = "_" || code = "N" then some none
+  else if code = "E" then some (some [])
+  else if code = "P" then some (some [⟨[], dots, []⟩])
+  else match code.toList with
+    | 'L' :: r => (unhex (String.ofList r)).bind fun p => if p.isEmpty then none else some (some [⟨p, dots, []⟩])
+    | 'A' :: r => (unhex (String.ofList r)).bind fun p => if p.isEmpty then none else some (some [⟨p, allName, []⟩])
+    | _ => none
+
+def boolArg (code : String) : Option (Option Bool) :=
+  if code = "_" || code = "N" then some none
+  else if code = "T" then some (some true) else if code = "F" then some (some false) else none
+
 def step (line : String) : String :=
   match line.splitOn " " with
   | ["cs", dirs, src, dep] =>
@@ -51,6 +70,23 @@ def step (line : String) : String :=
       | some (i, .notVisible) => "vis " ++ toString i
       | some (i, .testOnly) => "testonly " ++ toString i
     | _, _, _ => "bad-op"
+  | ["bv", pdv, pdt, vis, to, src] =>
+    if pdv = "N" || pdt = "N" then "bad-op" else
+    match visArg pdv, boolArg pdt, visArg vis, boolArg to, unhex src with
+    | some pdv, some pdt, some vis, some to, some src =>
+      if src = "lib".toList || (tryParse lf ("//".toList ++ src ++ ":x".toList) [] []).isNone then "bad-op" else
+      let ev := effVis df vis pdv
+      let et := effTestOnly df to pdt
+      let dep : VTarget := ⟨⟨"lib".toList, "t".toList, []⟩, ev, et, false⟩
+      let s : Label := ⟨src, "x".toList, []⟩
+      let see := canSee lf vf [] s dep
+      let chk := match checkDeps lf vf [] ⟨s, [], false, false⟩ [dep] with
+        | none => "ok"
+        | some (_, .notVisible) => "vis"
+        | some (_, .testOnly) => "testonly"
+      "vis=" ++ (if ev.isEmpty then "_" else "+".intercalate (ev.map showLabel)) ++ " to=" ++ (if et then "1" else "0") ++
+        " see=" ++ (if see then "1" else "0") ++ " chk=" ++ chk
+    | _, _, _, _, _ => "bad-op"
   | _ => "bad-op"
 
 def main : IO Unit := runStateless step
